@@ -1077,7 +1077,7 @@ pub fn splice(
     let f = parse(text, "normalisation")?;
     let mut ff = FnFinder { fns: vec![] };
     ff.visit_file(&f);
-    let is_fn = matches!(spec.kind.as_str(), "fn" | "method" | "trait_fn");
+    let is_fn = matches!(spec.kind.as_str(), "fn" | "method" | "trait_fn" | "inner_fn");
     if !is_fn || ff.fns.is_empty() {
         return Ok(Spliced { text: text.to_string(), obligations: vec![], fn_name: None, is_fn: false });
     }
